@@ -8,7 +8,11 @@ MCInit == Init /\ hist = <<>>
 \* statement only says that verification panics; teardown.rs happens to test the clones first, the other order
 \* would hold the property just as well.
 Alt(o) == IF o.res = "panic:clones" /\ o.others /\ o.foreign THEN "panic:thread" ELSE o.res
-MCNext == Next /\ hist' = Append(hist, [ev |-> out'.ev, res |-> out'.res, alt |-> Alt(out'), dropped |-> out'.dropped, new |-> out'.new])
+\* rel: the instances that cease to exist in this step.  make_mut MAY release the values lent earlier by its instance
+\* (the model, like the code, does so at once); the statement only requires them to be released no later than with
+\* their instance, so the replay accepts a later release, bounded by `rel`.
+MCNext == Next /\ hist' = Append(hist, [ev |-> out'.ev, res |-> out'.res, alt |-> Alt(out'), dropped |-> out'.dropped, new |-> out'.new,
+                                         rel |-> { i \in Ids : inst[i].alive /\ ~inst'[i].alive }])
 \* a behaviour is complete when it used all its steps or nothing is alive any more
 Complete == steps = MaxSteps \/ RefCnt(inst) = 0
 MCSpec == MCInit /\ [][MCNext]_mcvars
